@@ -2,13 +2,16 @@
 # seed_matrix.sh : apply every kept seeded change to /repo in turn, run the quick check of its property, undo it.
 # Writes seeded/RESULTS.md.  /repo must be clean and nothing else may use /repo or ./check meanwhile.
 cd /verif
-out=seeded/RESULTS.md
+out=${MATRIX_OUT:-seeded/RESULTS.md}
 echo "# Seeded changes vs the quick check of their property (tools/seed_matrix.sh, $(date -u +%FT%TZ))" > $out
 echo >> $out
 echo "| seed | check | result |" >> $out
 echo "|---|---|---|" >> $out
 for d in seeded/C*-*/; do
   name=$(basename $d); prop=${name%%-*}
+  # MATRIX_ONLY / MATRIX_SKIP: extended regular expressions on the seed name (e.g. MATRIX_SKIP='^C1[57]-')
+  if [ -n "$MATRIX_ONLY" ] && ! echo "$name" | grep -Eq "$MATRIX_ONLY"; then continue; fi
+  if [ -n "$MATRIX_SKIP" ] && echo "$name" | grep -Eq "$MATRIX_SKIP"; then continue; fi
   if ! git -C /repo diff --quiet; then echo "/repo not clean"; exit 2; fi
   git -C /repo apply /verif/$d/patch.diff || { echo "| $name | $prop | patch does not apply |" >> $out; continue; }
   r=$(timeout 1200 ./check $prop 2>&1 | grep -E "^(VIOLATION|OK)|cannot run")
@@ -21,4 +24,4 @@ for d in seeded/C*-*/; do
 done
 echo >> $out
 echo "Unchanged tree afterwards:" >> $out
-for p in $(seq -w 1 20); do timeout 900 ./check C$p | tail -1 >> $out; done
+if [ -z "$MATRIX_NO_FINAL" ]; then for p in $(seq -w 1 20); do timeout 900 ./check C$p | tail -1 >> $out; done; fi
